@@ -461,17 +461,32 @@ def subtree_info(sol, node, accf, memo):
             return False
         # premise "every rule used is exact", validated on this instance: declared resources = operators produced
         try:
-            declared = {cname(k): int(v) for k, v in rule.compute_resources(**_get_decomp_args(o)[0]).gate_counts.items() if v}
+            declared = by_name((k, v) for k, v in rule.compute_resources(**_get_decomp_args(o)[0]).gate_counts.items() if v)
         except Exception:
             return False
-        actual = {}
-        for ch in n["children"]:
-            k = cname(abstractify(ch["op"]))
-            actual[k] = actual.get(k, 0) + 1
+        actual = by_name((ch["op"], 1) for ch in n["children"])
         if declared != actual:
             PREMISE_NOTES.append({"op": repr(o)[:80], "rule": str(getattr(rule, "name", rule))[:60], "declared": declared, "actual": actual})
             return "declared-resources-differ"
     return exact
+
+
+def tname(x):
+    """gate-type name as the decomposition system spells it"""
+    from pennylane.decomposition.utils import to_name
+    try:
+        if isinstance(x, qp.ops.Conditional):
+            x = x.base
+        return to_name(abstractify(x) if isinstance(x, qp.core.operator.Operator) else x)
+    except Exception:
+        return cname(x)
+
+
+def by_name(counts):
+    out = {}
+    for k, v in counts:
+        out[tname(k)] = out.get(tname(k), 0) + int(v)
+    return out
 
 
 def cname(x):
@@ -500,11 +515,8 @@ def estimate_checks(tr, accf, maxexp):
         except Exception as e:  # noqa
             res.append({"op": repr(o)[:80], "status": "no-estimate", "detail": short(e)})
             continue
-        want = {cname(k): int(v) for k, v in est.gate_counts.items() if v}
-        got = {}
-        for x, _ in r["passed"]:
-            k = cname(abstractify(x))
-            got[k] = got.get(k, 0) + 1
+        want = by_name((k, v) for k, v in est.gate_counts.items() if v)
+        got = by_name((x, 1) for x, _ in r["passed"])
         res.append({"op": repr(o)[:80], "status": "compared", "estimate": want, "emitted": got,
                     "num_gates": int(est.num_gates), "n_emitted": len(r["passed"])})
     return res
